@@ -3,6 +3,8 @@
 //
 //	rc-ls  real client (ParseArgs+Dial)  <-> Lean reference server   (+ Lean shadow client)
 //	lc-rs  Lean reference client         <-> real server (WrapConn)  (+ Lean shadow server)
+//	conc   16 real<->real sessions truly in parallel; afterwards the Lean reference follows each from
+//	       its recorded wire bytes and the client's session key (same KEY_SEED/AUTH, frames decode)
 //	rr     real client <-> real server, every byte either endpoint emits re-derived by two Lean
 //	       shadows that are handed exactly the random bytes the real endpoints drew
 //
@@ -15,8 +17,13 @@ import (
 	"bytes"
 	"encoding/json"
 	"fmt"
+	"io"
+	"net"
+	"runtime"
 	"strconv"
 	"strings"
+	"sync"
+	"sync/atomic"
 	"time"
 
 	"gitlab.com/yawning/obfs4.git/common/drbg"
@@ -33,12 +40,12 @@ type ccase struct {
 	CaseSeed  uint64 `json:"case_seed"`
 	CliIat    int    `json:"cli_iat"`
 	SrvIat    int    `json:"srv_iat"`
-	Format    string `json:"format"` // cert | legacy
+	Format    string `json:"format"`  // cert | legacy
 	CliPad    string `json:"cli_pad"` // rand | min | max
 	SrvPad    string `json:"srv_pad"`
 	ChunkUp   string `json:"chunk_up"`   // chunking of the client handshake
 	ChunkDown string `json:"chunk_down"` // chunking of the server response
-	HourOff   int    `json:"hour_off"` // lc-rs: the reference client's clock, rc-ls: the reference server's clock, relative to the real one
+	HourOff   int    `json:"hour_off"`   // lc-rs: the reference client's clock, rc-ls: the reference server's clock, relative to the real one
 	NWrites   int    `json:"n_writes"`
 	Big       bool   `json:"big"` // include a 64 KiB write
 }
@@ -264,7 +271,6 @@ func writeLimit(iat int) time.Duration {
 	}
 	return 90 * time.Second
 }
-
 
 // encMixed: the reference peer sends payload p the way the deployed FORMAT allows and the Go
 // sender never does: packets carrying payload AND padding (payload 1/max/any with padding
@@ -703,9 +709,224 @@ func runCase(c ccase) (retry bool) {
 	return false
 }
 
+// ---------------------------------------------------------------- conc: truly parallel sessions, re-derived afterwards
+
+// runConc: N real client <-> real server sessions of one process and one server factory run truly
+// in parallel (goroutines, pipes, one barrier), each echoing payload both ways while both wire
+// directions are recorded.  AFTERWARDS the Lean reference follows every session from its recorded
+// bytes alone: a reference client with the real client's session key (hook VerifClientArgs) must
+// accept the recorded server response (same KEY_SEED / AUTH), and the link keys it derives must
+// decode the recorded frames of BOTH directions to exactly the payloads.  (The random tape is
+// global, so the per-connection randomness is taken from the wire and the key hook, not the tape.)
+func runConc(c ccase) (retry bool) {
+	N := c.NWrites
+	if runtime.GOMAXPROCS(0) < 8 {
+		runtime.GOMAXPROCS(8)
+	}
+	rng := vlib.NewRng(c.CaseSeed)
+	o4h.InstallTape(c.CaseSeed)
+	id := o4h.NewIdentity(rng, 0)
+	sf := id.ServerFactory()
+	cf := o4h.ClientFactory()
+	hour0 := o4h.Hour()
+	const watchdog = 20 * time.Second
+	type sess struct {
+		ca, cb      *o4h.RecConn
+		xPriv, xPub []byte
+		xRepr       []byte
+		up, down    []byte
+		err         string
+	}
+	ss := make([]*sess, N)
+	var wg sync.WaitGroup
+	barrier := make(chan struct{})
+	for i := 0; i < N; i++ {
+		a, b := net.Pipe()
+		s := &sess{ca: &o4h.RecConn{Conn: a}, cb: &o4h.RecConn{Conn: b},
+			up: vlib.NewRng(c.CaseSeed + uint64(i)).Bytes(1500 + 37*i), down: vlib.NewRng(c.CaseSeed + 1000 + uint64(i)).Bytes(900 + 53*i)}
+		ss[i] = s
+		wg.Add(1)
+		go func(i int, s *sess) {
+			defer wg.Done()
+			var timedOut atomic.Bool
+			wd := time.AfterFunc(watchdog, func() { timedOut.Store(true); s.ca.Close(); s.cb.Close() })
+			defer wd.Stop()
+			srvDone := make(chan string, 1)
+			go func() {
+				defer func() {
+					if p := recover(); p != nil {
+						s.cb.Close()
+						srvDone <- fmt.Sprintf("PANIC in the server: %v", p)
+					}
+				}()
+				<-barrier
+				sc, err := sf.WrapConn(s.cb)
+				if err != nil {
+					srvDone <- "WrapConn: " + err.Error()
+					return
+				}
+				defer sc.Close()
+				got := make([]byte, len(s.up))
+				if _, err := io.ReadFull(sc, got); err != nil || !bytes.Equal(got, s.up) {
+					srvDone <- fmt.Sprintf("server read: %v equal=%v", err, bytes.Equal(got, s.up))
+					return
+				}
+				if _, err := sc.Write(s.down); err != nil {
+					srvDone <- "server write: " + err.Error()
+					return
+				}
+				srvDone <- ""
+			}()
+			fail := func(msg string) {
+				s.ca.Close()
+				if e := <-srvDone; e != "" {
+					msg += " ; server: " + e
+				}
+				if timedOut.Load() {
+					msg += fmt.Sprintf(" (torn down after %v)", watchdog)
+				}
+				s.err = msg
+			}
+			defer func() {
+				if p := recover(); p != nil {
+					fail(fmt.Sprintf("PANIC in the client: %v", p))
+				}
+			}()
+			args, err := cf.ParseArgs(id.ClientArgs([]string{"cert", "legacy"}[i%2], 0))
+			if err != nil {
+				fail(err.Error())
+				return
+			}
+			if _, _, kp, _, ok := obfs4.VerifClientArgs(args); ok {
+				s.xPriv = append([]byte(nil), kp.Private().Bytes()[:]...)
+				s.xPub = append([]byte(nil), kp.Public().Bytes()[:]...)
+				s.xRepr = append([]byte(nil), kp.Representative().Bytes()[:]...)
+			}
+			<-barrier
+			cc, err := cf.Dial("tcp", "x", func(string, string) (net.Conn, error) { return s.ca, nil }, args)
+			if err != nil {
+				fail("Dial: " + err.Error())
+				return
+			}
+			defer cc.Close()
+			if _, err := cc.Write(s.up); err != nil {
+				fail("client write: " + err.Error())
+				return
+			}
+			got := make([]byte, len(s.down))
+			if _, err := io.ReadFull(cc, got); err != nil || !bytes.Equal(got, s.down) {
+				fail(fmt.Sprintf("client read: %v equal=%v", err, bytes.Equal(got, s.down)))
+				return
+			}
+			if e := <-srvDone; e != "" {
+				s.err = e
+			}
+		}(i, s)
+	}
+	time.Sleep(20 * time.Millisecond)
+	close(barrier)
+	wg.Wait()
+	if o4h.Hour() != hour0 {
+		return true
+	}
+	var failed []string
+	for i, s := range ss {
+		if s.err != "" {
+			failed = append(failed, fmt.Sprintf("#%d: %s", i, s.err))
+		}
+	}
+	if len(failed) > 0 {
+		sig := "concurrent-genuine-session-fails"
+		if strings.Contains(strings.Join(failed, " "), "PANIC") {
+			sig = "panic-under-concurrency"
+		}
+		show := failed
+		if len(show) > 3 {
+			show = show[:3]
+		}
+		violate(sig, "impl-oracle", fmt.Sprintf("%d of %d real client<->real server sessions running in parallel failed (each interoperates when run alone): %s", len(failed), N, strings.Join(show, " || ")), c)
+	}
+	// ---- follow every completed session with the reference, from the recorded bytes
+	for i, s := range ss {
+		r.Case(fmt.Sprintf("%s|%d", c.key(), i), s.err == "")
+		if s.err != "" || s.xPriv == nil {
+			continue
+		}
+		cw, sw := s.ca.Writes(), s.cb.Writes()
+		if len(cw) < 2 || len(sw) < 2 {
+			violate("concurrent-session-recording-short", "correspondence", fmt.Sprintf("session #%d: %d client writes, %d server writes recorded", i, len(cw), len(sw)), c)
+			continue
+		}
+		blob := cw[0]
+		if len(blob) < 32 || !bytes.Equal(blob[:32], s.xRepr) {
+			violate("client-handshake-bytes-differ", "correspondence", fmt.Sprintf("session #%d: the recorded client handshake does not start with the session key's representative", i), c)
+			continue
+		}
+		L := ref.Fresh("c")
+		T := ref.Fresh("t")
+		if !ref.CliNewKey(L, id.NodeID, id.Pub, s.xPriv, s.xPub, s.xRepr, hour0) {
+			violate("reference-client-failed", "correspondence", "cli.newkey", c)
+			continue
+		}
+		r.Validated(1)
+		fr := ref.CliFeed(L, sw[0])
+		if fr.Class != "ok" {
+			violate("reference-cannot-follow-concurrent-session", "impl-oracle",
+				fmt.Sprintf("session #%d of %d parallel ones completed between the real endpoints, but the reference client with the same session key answers %q to the recorded %d-byte server response (KEY_SEED / AUTH / MAC differ from the deployed derivation)", i, N, fr.Raw, len(sw[0])), c)
+			ref.Drop(L)
+			continue
+		}
+		d := ref.Dec(L, nil)
+		var rest []byte
+		for _, w := range sw[1:] {
+			rest = append(rest, w...)
+		}
+		d2 := ref.Dec(L, rest)
+		seedOK := d.Class == "ok" && len(d.Pkts) == 1 && d.Pkts[0].Type == 1 && bytes.Equal(d.Pkts[0].Payload, id.LenSeed)
+		if !seedOK || d2.Class != "ok" || !bytes.Equal(d2.Payload(), s.down) {
+			violate("reference-cannot-decode-concurrent-session", "impl-oracle",
+				fmt.Sprintf("session #%d: server->client frames: seed frame %s, data %s (%d of %d payload bytes)", i, d.Raw, d2.Class, len(d2.Payload()), len(s.down)), c)
+		}
+		var upw []byte
+		for _, w := range cw[1:] {
+			upw = append(upw, w...)
+		}
+		ref.LinkSwap(L, T)
+		d3 := ref.Dec(T, upw)
+		if d3.Class != "ok" || !bytes.Equal(d3.Payload(), s.up) {
+			violate("reference-cannot-decode-concurrent-session", "impl-oracle",
+				fmt.Sprintf("session #%d: client->server frames decode as %s (%d of %d payload bytes)", i, d3.Class, len(d3.Payload()), len(s.up)), c)
+		}
+		frames["conc-client"] += len(d3.Pkts)
+		frames["conc-server"] += len(d2.Pkts)
+		ref.Drop(L)
+		ref.Drop(T)
+	}
+	r.Count("concurrent_batches", strconv.Itoa(N))
+	r.Count("concurrent_sessions_ok", strconv.Itoa(N-len(failed)))
+	return false
+}
+
+func concBatches(rng *vlib.Rng, n int) {
+	firstBad := -1
+	for i := 0; i < n; i++ {
+		run(ccase{Scenario: "conc", CaseSeed: rng.U64(), Format: "both", NWrites: 16})
+		if r.NumViolations() > 0 && firstBad < 0 {
+			firstBad = i
+		}
+		if firstBad >= 0 && i >= firstBad+2 {
+			break
+		}
+	}
+}
+
 func run(c ccase) {
 	for try := 0; try < 3; try++ {
-		if !runCase(c) {
+		if c.Scenario == "conc" {
+			if !runConc(c) {
+				return
+			}
+		} else if !runCase(c) {
 			return
 		}
 		r.Count("skipped", "epoch-hour-changed-retry")
@@ -736,13 +957,20 @@ func main() {
 	}
 
 	rng := vlib.NewRng(r.Seed)
+	// truly parallel sessions, followed by the reference afterwards: 3 batches of 16 (quick), 10
+	// (thorough); after a broken proof or tie (search mode) up to 40, first
+	if r.Mode == "search" {
+		concBatches(rng.Fork(), 40)
+	} else {
+		concBatches(rng.Fork(), r.Scale(3, 10))
+	}
 	n := r.Scale(150, 2400)
 	scen := []string{"rc-ls", "lc-rs", "rr"}
 	pads := []string{"rand", "rand", "min", "max"}
 	for i := 0; i < n; i++ {
 		c := ccase{Scenario: scen[i%3], CaseSeed: rng.U64(), CliIat: (i / 3) % 3, SrvIat: (i / 9) % 3,
-			Format:  []string{"cert", "legacy"}[(i/3)%2],
-			CliPad:  vlib.Pick(rng, pads), SrvPad: vlib.Pick(rng, pads),
+			Format: []string{"cert", "legacy"}[(i/3)%2],
+			CliPad: vlib.Pick(rng, pads), SrvPad: vlib.Pick(rng, pads),
 			ChunkUp: vlib.Pick(rng, o4h.ChunkClasses), ChunkDown: vlib.Pick(rng, o4h.ChunkClasses),
 			NWrites: rng.Range(2, 4), Big: r.Thorough() && i%16 == 0}
 		if c.Scenario != "rr" {
